@@ -37,6 +37,63 @@ def dispatch_matches(body):
     return [m for m in ms if id(m) not in inner]
 
 
+def pat_bytes(p):
+    """the set of byte values a literal / range / or-pattern matches, None when it is anything else"""
+    def val(e):
+        e = strip_paren(e)
+        if e.get("t") != "Lit":
+            return None
+        l = e
+        if l.get("kind") == "byte":
+            return l["value"]
+        if l.get("kind") == "int":
+            return int(l["digits"])
+        return None
+    t = p["t"]
+    if t == "PLit":
+        v = val(p["lit"])
+        return None if v is None else {v}
+    if t == "PRange":
+        lo = 0 if p["start"] is None else val(p["start"])
+        hi = 255 if p["end"] is None else val(p["end"])
+        if lo is None or hi is None:
+            return None
+        return set(range(lo, (hi + 1) if (p["closed"] or p["end"] is None) else hi))
+    if t == "POr":
+        out = set()
+        for c in p["cases"]:
+            b = pat_bytes(c)
+            if b is None:
+                return None
+            out |= b
+        return out
+    return None
+
+
+def inert_comment_arm(a, scrut):
+    if a["guard"] is not None:
+        return False
+    bs = pat_bytes(a["pat"])
+    if bs is None or bs & {ord(c) for c in CMDS}:
+        return False
+    b = strip_paren(a["body"])
+    if b["t"] != "BlockExpr":
+        return False
+    st = b["block"]["stmts"]
+    if not st:
+        return True
+    if len(st) != 1 or not bs <= set(range(0xC0, 0x100)) or scrut is None:
+        return False
+    e = st[0].get("expr") if st[0].get("t") in ("ExprStmt", "Semi", "Expr") else None
+    if e is None:
+        return False
+    for pat in ("__v_pc += __v_c.leading_ones() as usize - 1", "__v_pc += (__v_c.leading_ones() - 1) as usize"):
+        bd = pm.match_expr(e, pat, {"__v_c": scrut})
+        if bd:
+            return True
+    return False
+
+
 def assigns_to(node, name):
     out = []
     for n in walk(node):
@@ -404,8 +461,13 @@ def run_parse_rules(res, ast):
             lits = sorted(chr(a["pat"]["lit"]["value"]) for a in m["arms"] if a["pat"]["t"] == "PLit" and a["guard"] is None)
             extra = [a for a in m["arms"] if not (a["pat"]["t"] in ("PLit", "PWild") and a["guard"] is None)]
             default = [a for a in m["arms"] if a["pat"]["t"] == "PWild"]
+            # further arms are comment arms when they cannot take a command byte and do nothing -- or skip exactly the
+            # continuation bytes of the UTF-8 sequence their lead byte starts (the source is a `str`: the bytes skipped
+            # are 0x80..=0xBF, never a command, and lie inside the text)
+            sc0 = path_name(strip_paren(m["expr"]))
+            extra = [a for a in extra if not inert_comment_arm(a, sc0)]
             res.check(lits == sorted(CMDS) and not extra, "COMMENT-INERT", f"{INPLACE}|execute_in|arms", where(INPLACE, m, "execute_in"),
-                      f"in-place dispatch must have exactly the eight command bytes; found {lits} plus {len(extra)} other arm(s)")
+                      f"in-place dispatch must have exactly the eight command bytes; found {lits} plus {len(extra)} other arm(s) that may take a command byte or have an effect")
             db = strip_paren(default[0]["body"]) if default else None
             res.check(bool(default) and db["t"] == "BlockExpr" and not db["block"]["stmts"], "COMMENT-INERT",
                       f"{INPLACE}|execute_in|default", where(INPLACE, m, "execute_in"), "the default arm must be empty")
